@@ -34,7 +34,7 @@ type schedVec struct {
 	W     int     `json:"w"`
 	Steps []sstep `json:"steps"`
 	Scene uniVec  `json:"scene"`
-	Full  bool    `json:"full"` // also return the projected mesh (judged by UniTrace)
+	Full  bool    `json:"full"`          // also return the projected mesh (judged by UniTrace)
 	Gen   string  `json:"gen,omitempty"` // "seq" | "stall": the per-layer schedule is generated for the scene's batch count
 }
 
@@ -172,9 +172,10 @@ func uniField(u uniVec) *sceneField {
 const schedTimeout = 10 * time.Second
 
 // genSteps builds a per-layer schedule for a layer of nb batches:
-//   seq:   every batch is sent, received, processed and completed before the next one
-//   stall: worker 1 receives the first batch and is held while worker 2 handles all the others,
-//          then worker 1 processes its batch (a long-stalled worker)
+//
+//	seq:   every batch is sent, received, processed and completed before the next one
+//	stall: worker 1 receives the first batch and is held while worker 2 handles all the others,
+//	       then worker 1 processes its batch (a long-stalled worker)
 func genSteps(kind string, nb int) []sstep {
 	var st []sstep
 	if kind == "seq" {
